@@ -111,8 +111,15 @@ def _drive(ctx, fs, kind, cap, ops, keytype):
                     st_["reordered"] = True
                 break
 
-    def store(op, k, v):
+    def store(op, k, v, via_setdefault=False):
         nonlocal cands
+
+        def do_store():
+            if not via_setdefault:
+                return c.__setitem__(k, v)
+            r = c.setdefault(k, v)   # a miss: by dict semantics an unsuccessful lookup and one store (use count 1)
+            ctx.need(r is v or r == v, "%s/setdefault/wrong-return" % name, lambda: "setdefault(absent %r, %r) returned %r" % (k, v, r))
+
         if k in d:
             note_touch(k)
             run(op, lambda: c.__setitem__(k, v))
@@ -122,7 +129,7 @@ def _drive(ctx, fs, kind, cap, ops, keytype):
             ctx.label("re-store")
             return
         before = set(d)
-        run(op, lambda: c.__setitem__(k, v))
+        run(op, do_store)
         if len(d) >= cap:
             now = set(keys_now(op))
             gone = before - now
@@ -194,7 +201,7 @@ def _drive(ctx, fs, kind, cap, ops, keytype):
                     r = run(op, lambda: c.get(k, "D"))
                     ctx.need(r == "D", "%s/get/default" % name, "get(absent, default) returned %r" % (r,))
                 else:
-                    store("setdefault", k, o[2])
+                    store("setdefault", k, o[2], via_setdefault=True)
             elif op == "del":
                 if k in d:
                     run(op, lambda: c.__delitem__(k))
